@@ -10,7 +10,7 @@ import core
 from core import Built
 
 PROPERTY = "C08"
-CLASSES = ["c05", "c04", "c06", "c03", "c02"]          # format modules providing open_impl/stream_prefix/truth_reader
+CLASSES = ["c05", "c04", "c06", "c03", "c02", "c01"]          # format modules providing open_impl/stream_prefix/truth_reader
 RULE = ("for every stream class: generated image (the class's own generator) × stream buffer size in {512, 1536, 4096, 8192, "
         "65536, 1 MiB} (sector multiples) × a random history of 12..60 operations (quick) drawn from seek SET/CUR/END incl. negative "
         "and past-the-end, read n (0, small, large, past the end, -1), readinto, readall, peek, readoffset, tell and read_sectors "
@@ -82,6 +82,9 @@ def generate(seed, tier):
                 ss = 512
             elif cls == "c04":
                 r = m.gen_recipe(crng, tier, big=(i % 10 == 3))
+                ss = 512
+            elif cls == "c01":
+                r = m.gen_qcow2.gen_recipe(crng, "quick", nsnaps=0, many_l2=(i % 6 == 2))
                 ss = 512
             else:
                 r = m.gen_recipe(crng, tier, big=(i % 15 == 3)) if cls != "c06" else m.gen_recipe(crng, tier)
